@@ -140,6 +140,7 @@ type Exec struct {
 	nameCount        map[string]int
 	pureTyped        map[string]bool
 	idxStack         []*types.Var
+	askedComparable bool
 	preEval map[ast.Expr]Val
 	mapRangeDepth    int
 	ifaceAsked       map[string]types.Type
@@ -214,8 +215,22 @@ func (e *Exec) sideOblige(st *State, what string, goal Term, pos token.Pos) {
 	if f.contract != nil && f.contract.Opts["nopanic"] == "off" {
 		return
 	}
-	if f.contract != nil && f.contract.Opts["nopanic"] == "typeassert" && what != "type-assert" {
-		return // only single-value type assertions are obligations
+	if what == "iface-compare" && (f.contract == nil || !strings.Contains(f.contract.Opts["nopanic"], "ifacecompare")) {
+		return // opt-in: error values and other library interfaces are compared everywhere and their dynamic types are unknown
+	}
+	if f.contract != nil {
+		// nopanic=<kind>[,<kind>]: only the listed kinds of panic are obligations (typeassert, ifacecompare, index, ...)
+		if v := f.contract.Opts["nopanic"]; v != "" && v != "on" {
+			keep := false
+			for _, k := range strings.Split(v, ",") {
+				if k == what || k == strings.ReplaceAll(what, "-", "") {
+					keep = true
+				}
+			}
+			if !keep {
+				return
+			}
+		}
 	}
 	name := fmt.Sprintf("%s#nopanic:%s@%s", e.fnName, what, e.relLine(pos))
 	e.oblige(st, name, "no-panic", nil, goal, pos)
